@@ -3624,6 +3624,19 @@ async def _helper_rename_inbox(inbox: Mailbox, new_name: str) -> None:
         new_msg_keys.append(new_msg_key)
         moved_keys.append(key)
 
+        # The message is moved, not delivered anew: its internal date (the
+        # mtime of its file) goes with it.
+        #
+        try:
+            mtime = await aiofiles.os.path.getmtime(
+                mbox_msg_path(inbox.mailbox, key)
+            )
+            await utime(
+                mbox_msg_path(new_mbox.mailbox, new_msg_key), (mtime, mtime)
+            )
+        except FileNotFoundError:
+            pass
+
         for seq in inbox.sequences.keys():
             if key in inbox.sequences[seq]:
                 sequences[seq].add(new_msg_key)
